@@ -161,6 +161,7 @@ func checkC06(c *ev.Ctx) {
 	}
 	cases := lzCases(c.Seed, 6, n, false)
 	c.MinEvals(int64(n / 2))
+	defaultCtors(c, "lzma")
 	par(len(cases), func(i int) {
 		k := cases[i]
 		noteCase(k.ID)
